@@ -1,0 +1,19 @@
+//go:build verif
+
+package tbtc
+
+// VerifC19Codec is what the C19 verification driver needs from a decoder type.
+type VerifC19Codec = interface {
+	Marshal() ([]byte, error)
+	Unmarshal([]byte) error
+}
+
+// VerifC19Factories returns a constructor of a zero value for every type of
+// this package that has an Unmarshal method and is not exported.
+func VerifC19Factories() map[string]func() VerifC19Codec {
+	return map[string]func() VerifC19Codec{
+		"signer":              func() VerifC19Codec { return &signer{} },
+		"signingDoneMessage":  func() VerifC19Codec { return &signingDoneMessage{} },
+		"coordinationMessage": func() VerifC19Codec { return &coordinationMessage{} },
+	}
+}
